@@ -158,3 +158,43 @@ Proof.
     rewrite exp_Ropp, exp_ln by lra. lra.
   - unfold fR. simpl. replace (- (1 * (0 - 0))) with 0 by ring. rewrite exp_0. lra.
 Qed.
+
+(* ------------------------------------------------------------------ the start value is not right of the root *)
+(* the summed activity is at least the activity of any one product *)
+Lemma sumR_ge_term : forall data To g Ia La, physical_data data -> In (Ia, La) data ->
+  Ia * exp (- (La * (g - To))) <= sumR data To g.
+Proof.
+  induction data as [|[a l] d IH]; intros To g Ia La Hp Hin; [contradiction|].
+  inversion Hp as [|? ? [Ha Hl] Hd]; subst. simpl in Ha, Hl. simpl.
+  assert (Hnn : forall dd, physical_data dd -> 0 <= sumR dd To g).
+  { induction dd as [|[a' l'] dd IHd]; intro Hq; simpl; [lra|].
+    inversion Hq as [|? ? [Ha' Hl'] Hd']; subst. simpl in Ha'. specialize (IHd Hd').
+    pose proof (exp_pos (- (l' * (g - To)))). nra. }
+  destruct Hin as [E|Hin].
+  - inversion E; subst. specialize (Hnn d Hd). lra.
+  - specialize (IH To g Ia La Hd Hin). pose proof (exp_pos (- (l * (g - To)))). nra.
+Qed.
+
+(* decay_time starts Newton at max_i (-log(target/Ia_i)/La_i + To), the latest of the times at which one product
+   alone would meet the target: at any g not later than such a time of some product, f(g) >= 0 - the start value
+   is at or left of the root, which is what C15_newton_iterates_left asks of it *)
+Theorem start_value_left : forall data To target g Ia La, physical_data data -> 0 < target ->
+  In (Ia, La) data -> 0 < Ia -> g <= - ln (target / Ia) / La + To -> 0 <= fR data To target g.
+Proof.
+  intros data To target g Ia La Hp Ht Hin Hia Hg. unfold fR.
+  pose proof (sumR_ge_term data To g Ia La Hp Hin) as Hs.
+  assert (HL : 0 < La).
+  { unfold physical_data in Hp. rewrite Forall_forall in Hp. apply (Hp (Ia, La) Hin). }
+  assert (Hr : 0 < target / Ia) by (apply Rdiv_lt_0_compat; assumption).
+  assert (He : exp (ln (target / Ia)) <= exp (- (La * (g - To)))).
+  { destruct (Rle_lt_or_eq_dec _ _ Hg) as [L|E].
+    - apply Rlt_le, exp_increasing.
+      assert (La * (g - To) < - ln (target / Ia)); [|lra].
+      replace (- ln (target / Ia)) with (La * (- ln (target / Ia) / La)) by (field; lra).
+      apply Rmult_lt_compat_l; lra.
+    - right. f_equal. subst g. field. lra. }
+  rewrite exp_ln in He by assumption.
+  assert (target <= Ia * exp (- (La * (g - To)))).
+  { replace target with (Ia * (target / Ia)) by (field; lra). apply Rmult_le_compat_l; lra. }
+  lra.
+Qed.
